@@ -34,7 +34,7 @@ PROPS = {
     },
     "C19": {
         "units": ["break", "problem"],
-        "bounded_checks": ["strong"],
+        "bounded_checks": ["strong", "external"],
         "level": "other",
         "property_obligations": ["lemma_break_cl", "lemma_break_ht", "lemma_break_len", "lemma_forall_distrib",
                                  "Problem::decompose", "Problem::decompose_independent", "Problem::decompose_sequential", "Problem::axioms", "Problem::conjectures",
@@ -132,6 +132,7 @@ PROPS = {
     },
     "C02": {
         "units": ["ext"],
+        "bounded_checks": ["external"],
         "level": "other",
         "property_obligations": ["ValidatedExternalEquivalenceTask::decompose"],
         "carriers": ["AnnotatedFormula::into_problem_formula", "WithWarnings::preface_warnings"],
@@ -183,7 +184,7 @@ PROPS = {
     },
     "C09": {
         "units": ["problem"],
-        "bounded_checks": ["strong"],
+        "bounded_checks": ["strong", "external"],
         "level": "other",
         "property_obligations": ["Problem::create_unique_formula_names", "lemma_unique_names", "Problem::add_theory",
                                  "Problem::decompose", "Problem::decompose_independent", "Problem::decompose_sequential", "Problem::axioms", "Problem::conjectures"],
@@ -299,6 +300,7 @@ PROPS = {
     },
     "C16": {
         "units": ["tptpnum", "ensure", "ext", "subst", "tau", "nat", "outline", "seq", "strong", "gamma", "break", "simp_int", "simp_cl", "apply", "problem", "prover", "files"],
+        "bounded_checks": ["external"],
         "level": "other",
         "property_obligations": ["numeral_arm", "callsite_roles_checked_before_routing"],
         "carriers": [],
